@@ -39,7 +39,7 @@ func runC07(c *Ctx) {
 	c.rule("R-RING-NORM", 20, "every index into q.vs within [0, L-1] and at the slot the deque semantics prescribes (mod L, no-growth paths); every slice within [0, L]; at every return 0 <= n <= L, 0 <= head <= max(L-1, 0), and head/n changed as the method's specification says; constructors start from head = n = 0")
 	ruleEmptyAgreesLen(c, "queue", "Queue")
 	c.rule("R-GROW-ROTATE", 1, "every path to the growth append has head == 0 (branch fact, or Rotate(vs, -head) then head = 0)")
-	c.rule("R-DIV-NONZERO", 1, "every % in package queue has divisor len(q.vs) reached only with a non-empty buffer")
+	c.rule("R-DIV-NONZERO", 0, "every % in package queue has divisor len(q.vs) reached only with a non-empty buffer")
 	c.rule("R-YIELD", 1, "Queue.Each stops calling f once it returned false")
 	c.assume("callbacks passed to Each do not modify the queue while it is being iterated")
 
